@@ -176,6 +176,25 @@ def roundtrip(rec, variant=0):
     return cells, len(out)
 
 
+def expand_big(rec):
+    """A big record (MC_Compress!BigRec) carries shapes, column sets, selection and pick only; the payload table and the
+    expected payload follow from the value function below (injective in (e, s, k) for k < 100000, s < 10)."""
+    if not rec.get("big") or "tab" in rec:
+        return rec
+    val = lambda e, s, k: (e * 10 + s) * 100000 + k
+    rec = dict(rec)
+    rec["tab"] = [[[[val(e, s, k) if rec["cols"][e - 1][s - 1][c - 1] else MISSING for c in range(1, 6)]
+                    for k in range(1, n + 1)]
+                   for s, n in enumerate(shapes, start=1)]
+                  for e, shapes in enumerate(rec["shape"], start=1)]
+    rec["exp"] = [[rec["tab"][e][p[0] - 1][p[1] - 1] for e, p in enumerate(row)] for row in rec["pick"]]
+    return rec
+
+
+def _slim(rec):
+    return {k: v for k, v in rec.items() if not (rec.get("big") and k in ("tab", "exp"))}
+
+
 def _innermost_accelforge_frame(exc):
     fn = None
     for fs in traceback.extract_tb(exc.__traceback__):
@@ -186,6 +205,7 @@ def _innermost_accelforge_frame(exc):
 
 def judge(rec, variant=0):
     """-> None (agrees) | ("violation", signature, detail) | ("error", text)."""
+    rec = expand_big(rec)
     try:
         cells, nout = roundtrip(rec, variant)
     except Exception as e:  # noqa
@@ -284,13 +304,17 @@ def _replay_records(ck: Check, recs, label):
                     ck.impl_error_sample = {"case": {k: rec[k] for k in ("shape", "sel", "pick")}, "traceback": v[1]}
                 continue
             ck.violation(v[1], "tables %s, selection %s: %s" % (json.dumps(rec["shape"]), json.dumps(rec["pick"]), v[2]),
-                         {"rec": rec, "variant": variant, "generator": label})
+                         {"rec": _slim(rec), "variant": variant, "generator": label})
     for rec in recs:
         ck.traces += 1
         ck.evaluations += 1
         if _nontrivial(rec):
             ck.count_nontrivial((json.dumps(rec["shape"]), json.dumps(rec["cols"]), json.dumps(rec["sel"])))
-    if recs:
+    if recs and recs[0].get("big"):
+        r = recs[0]
+        ck.sample({"generator": label, "shape": r["shape"], "selection": r["sel"],
+                   "selection(sub-table,row) per result row and Einsum": r["pick"]})
+    elif recs:
         r = recs[len(recs) // 2]
         ck.sample({"generator": label, "shape": r["shape"], "payload_columns_present": r["cols"],
                    "selection(sub-table,row) per result row and Einsum": r["pick"], "expected_payload": r["exp"]})
@@ -340,10 +364,13 @@ def run(ck: Check):
         plan += [("MC_Compress_rand.cfg", ck.seed * 100 + i) for i in range(4)]
     else:
         plan = [("MC_Compress_exhq.cfg", None), ("MC_Compress_rand.cfg", ck.seed * 100)]
+    # tables with more than 2^16 rows per Einsum (index bookkeeping beyond 16 bits)
+    plan.append(("MC_Compress_big.cfg", ck.seed * 100 + 77))
     for cfg, seed in plan:
         kw = {"workers": 8}
         if seed is not None:
-            kw = {"seed": seed, "workers": 1, "simulate": "num=1", "depth": (3000 if thorough else 1000)}
+            depth = (3000 if thorough else 1000) if "big" not in cfg else (21 if thorough else 6)
+            kw = {"seed": seed, "workers": 1, "simulate": "num=1", "depth": depth}
         res = ck.tlc("MC_Compress", cfg, timeout=3000, coverage=False, **kw)
         if not res.ok:
             raise Machinery("generator %s failed: %s\n%s" % (cfg, res.violated, res.tail))
